@@ -616,6 +616,13 @@ def insert_hints(text, hints):
                 pos = toks[ft.body_close].start
             else:
                 pos = toks[st[-1][0]].start
+        elif where in ('before_loop', 'after_loop'):
+            loops = find_loops(ft)
+            if pattern >= len(loops):
+                lost.append('%s #%d' % (where, pattern))
+                continue
+            kw, ob, cb = loops[pattern]
+            pos = toks[kw].start if where == 'before_loop' else toks[cb].end
         elif where == 'block_start':
             # start of the first `{` block of the innermost statement matching pattern
             s = find_stmt(ft, pattern)
